@@ -1061,6 +1061,8 @@ fn parse_number(
     };
     match chars.parse::<f64>() {
         Err(_) => Err("Failed to parse to double".to_string()),
+        // 1e999 overflows to infinity: it is not a number we can store
+        Ok(v) if !v.is_finite() => Err("Number out of range".to_string()),
         Ok(v) => Ok((
             sign * v,
             NumberOptions {
